@@ -247,6 +247,36 @@ class TreeGen:
             up.content.seek(0)
 
 
+def rewind_uploads(deps, v: Any) -> None:
+    from pydantic import BaseModel
+    if isinstance(v, deps.base_model.Upload):
+        v.content.seek(0)
+    elif isinstance(v, BaseModel):
+        for k in type(v).model_fields:
+            rewind_uploads(deps, getattr(v, k))
+    elif isinstance(v, dict):
+        for x in v.values():
+            rewind_uploads(deps, x)
+    elif isinstance(v, list):
+        for x in v:
+            rewind_uploads(deps, x)
+
+
+def snap(deps, v: Any) -> Any:
+    """Structural snapshot of a caller-owned variables tree (Uploads by identity, models by their dump) to detect in-place modification."""
+    from pydantic import BaseModel
+
+    if isinstance(v, deps.base_model.Upload):
+        return ("upload", id(v))
+    if isinstance(v, BaseModel):
+        return ("model", type(v).__name__, snap(deps, {k: getattr(v, k) for k in type(v).model_fields}), tuple(sorted(v.model_fields_set)))
+    if isinstance(v, dict):
+        return ("dict", tuple((k, snap(deps, x)) for k, x in v.items()))
+    if isinstance(v, list):
+        return ("list", tuple(snap(deps, x) for x in v))
+    return ("leaf", repr(v))
+
+
 # ------------------------------------------------------------------ decoding captured requests
 
 
@@ -424,6 +454,7 @@ async def one_case(r: core.Run, deps, rng_seed: int, idx: int):
             return httpx.Response(200, json={"data": {"ok": True}})
 
         client, tracer = make_client(deps, variant, handler)
+        before_vars = snap(deps, variables)
         try:
             if variant.startswith("async"):
                 resp = await client.execute(query, opname, variables, **kwargs)
@@ -447,6 +478,8 @@ async def one_case(r: core.Run, deps, rng_seed: int, idx: int):
         dec = decode_request(captured[0])
         decs[variant] = dec
         probs = judge_request(dec, query, opname, exp_vars, exp_files, kwargs)
+        if snap(deps, variables) != before_vars:
+            probs.append(("caller-variables-untouched", "execute() modified the caller's variables in place"))
         if tracer is not None and tracer.open_spans():
             probs.append(("spans-closed", repr(tracer.open_spans())))
         if not probs:
@@ -499,8 +532,12 @@ async def sequence_case(r: core.Run, deps, seed: int, variant: str):
             exp_vars["forcedFile"] = None
         steps.append((variables, exp_vars, tg.expected_files()))
     case = {"kind": "sequence", "variant": variant, "seed": seed}
+    steps = [st for st in steps for _ in (0, 1)]  # every call is retried once with the very same variables object
     for i, (variables, exp_vars, exp_files) in enumerate(steps):
         n0 = len(captured)
+        for up_ in (f_ for f_ in [variables] if False):
+            pass
+        rewind_uploads(deps, variables)
         try:
             if variant.startswith("async"):
                 await client.execute("query Q { f }", "Q", variables, **shared_kwargs)
